@@ -153,11 +153,12 @@ Section Mont.
         rewrite wrapu_id by (try lia; change (2 ^ 32) with 4294967296; lia).
         destruct (Z.eq_dec (65536 mod p) 0) as [E0|E0].
         - exfalso. apply Z.mod_divide in E0; [|lia]. destruct E0 as [k Ek].
-          assert (Z.odd 65536 = true) by (rewrite Ek, Z.odd_mul, Hodd; destruct (Z.odd k) eqn:?; auto; exfalso;
-            assert (k <> 1 /\ True) by (split; auto; intro; subst; lia); admit). discriminate.
+          pose proof (proj1 Hnim) as Hn1. apply Z.mod_divide in Hn1; [|lia]. destruct Hn1 as [j Ej].
+          assert (p * (j * k - mg_nim p) = 1) as E1' by (rewrite Ek in Ej; lia || nia).
+          apply Z.mul_eq_1 in E1'. lia.
         - symmetry. rewrite <- (Z.mod_small (p - 65536 mod p) p) by lia.
           apply (cong_intro p _ _ (- (1 + 65536 / p) + 65536)); [lia|]. idtac. pose proof (Z.div_mod 65536 p ltac:(lia)). nia. }
       rewrite E2. rewrite (proj2 (mg_roundtrip (p - 1) ltac:(lia))). split; [lia|]. apply (cong_intro p _ _ 1); lia.
-  Admitted.
+  Qed.
 End Mont.
-End Mont.
+
